@@ -287,8 +287,8 @@ def eval_pat(rec, ti, case, res, T):
                     cand.append("F8b")
                 if "F8c" in shapes and (o.get("rt") is None or not route_legal(o["r"])):
                     cand.append("F8c")
-                if "F8f" in shapes and (o.get("rt") is None or not route_legal(o["r"])):
-                    cand.append("F8f")
+                if "F8f" in shapes and (not o.get("uri_ok") or o.get("uscheme") != exp_parse["scheme"]):
+                    cand.append("F8f")      # RouteUri does not read the pattern's scheme as a scheme
                 if "F8d" in shapes and o.get("rt") is None and o["r"].endswith(":"):
                     cand.append("F8d")
                 if ar.get("f8e") and th["dec"]["t"] in o["r"]:
@@ -463,7 +463,7 @@ def eval_str(rec, ti, case, res, T):
             cand = []
             if not legal and (a.get("rt") is None or not route_legal(a["r"])):
                 cand.append("F8c")
-            if not sch_legal and (a.get("rt") is None or not route_legal(a["r"])):
+            if not sch_legal and (not a.get("uri_ok") or a.get("uscheme") != o.get("scheme")):
                 cand.append("F8f")
             if rec["ok"] and not rec["segs"] and a.get("rt") is None and a["r"].endswith(":"):
                 cand.append("F8d")
